@@ -27,6 +27,10 @@ CLAIMED = {
             "children in every position differentiation rules can skip; evaluator outcome cross-checked on the same path."),
     "C08": ("6/C08", "Every rewrite step, the whole pass, the give-up clause and re-simplification: each form is evaluated symbolically and z3 decides "
             "'defined wherever the input is, with the same value' for ALL points, per rule pattern and parameter combination. Known finding D3."),
+    "C09": ("6/C09", "Operation histories (length <= 4) over pools sharing sub-expression objects, with two symbolic points so that cache contents and "
+            "half-finished failing calls are symbolic: the last operation equals the same operation on a fresh pool for ALL points. Known finding D3."),
+    "C10": ("6/C10", "After every history of the bounded alphabet each operand still equals, prints, hashes and (for ALL points) evaluates like its fresh twin; "
+            "list helpers against their specification for an arbitrary integer index; Point against later dict mutation."),
     "C17": ("6/C17", "On every solver-feasible path of evaluation / derivative routes / as_expression the outcome is a real number, DomainError or "
             "CoordinateMissing; proxies reproduce Python's ZeroDivisionError/ValueError/complex/TypeError/KeyError behaviour."),
 }
